@@ -479,38 +479,37 @@ theorem loopStep_order (mid : Nat) (w : World) (oid : Nat) (ho : HasOrder w oid)
       rw [h, order!_congr _ _ (hb _), executionComplete_self w oid ho]
 
 
-/-! ### C03.3 finality for whole runs of a market (invariant by induction, `Lemmas/Final.lean`) -/
+/-! ### C03.3 finality for whole runs (invariant by induction, `Lemmas/Final.lean`) -/
 
-open Flumine.Fin in
-/-- C03 finality, whole-run: take ANY history of a market - any sequence of its updates with any scripted
-    behaviour of any strategies (requests batched or not, forced or not, refused or accepted), packages executed
-    after their latency, matching, removals, completion loop, closes and re-opens - and ANY continuation of it.
-    An order of the market's blotter that is EXECUTION_COMPLETE at some point is EXECUTION_COMPLETE (and
-    `complete`) ever after and never leaves the blotter: no request, late response, reset, matching pass,
-    removal or closure makes it live again. -/
+open Flumine.Fin Flumine.Inv in
+/-- C03 finality, whole-run: take ANY history - any sequence of updates of any markets, in any interleaving, with
+    any scripted behaviour of any strategies (requests batched or not, forced or not, refused or accepted, aimed
+    at any order through a transaction of any market), packages executed after their latency, matching, removals,
+    completion loop, closes and re-opens - and ANY continuation of it.  An order of a market's blotter that is
+    EXECUTION_COMPLETE at some point is EXECUTION_COMPLETE (and `complete`) ever after and never leaves the
+    blotter: no request, late response, reset, matching pass, removal or closure makes it live again. -/
 theorem complete_is_final_whole_run (cfg : Config) (cl : List Client) (ss : List Strategy) (M : Nat)
-    (past future : List (Book × (Nat → List Action))) (oid : Nat) :
-    oid ∈ ((runMarket M { cfg := cfg, clients := cl, strategies := ss } past).market! M).blotter →
-    ((runMarket M { cfg := cfg, clients := cl, strategies := ss } past).order! oid).status = some .executionComplete →
-    ((runMarket M (runMarket M { cfg := cfg, clients := cl, strategies := ss } past) future).order! oid).status = some .executionComplete ∧
-    ((runMarket M (runMarket M { cfg := cfg, clients := cl, strategies := ss } past) future).order! oid).complete = true ∧
-    oid ∈ ((runMarket M (runMarket M { cfg := cfg, clients := cl, strategies := ss } past) future).market! M).blotter := by
+    (past future : List (Nat × Book × (Nat → List Action))) (oid : Nat) :
+    oid ∈ ((runUpdates { cfg := cfg, clients := cl, strategies := ss } past).market! M).blotter →
+    ((runUpdates { cfg := cfg, clients := cl, strategies := ss } past).order! oid).status = some .executionComplete →
+    ((runUpdates (runUpdates { cfg := cfg, clients := cl, strategies := ss } past) future).order! oid).status = some .executionComplete ∧
+    ((runUpdates (runUpdates { cfg := cfg, clients := cl, strategies := ss } past) future).order! oid).complete = true ∧
+    oid ∈ ((runUpdates (runUpdates { cfg := cfg, clients := cl, strategies := ss } past) future).market! M).blotter := by
   intro hb he
-  obtain ⟨b1, _⟩ := (fs_runMarket M _ past).2 (bi_empty M cfg cl ss)
-  obtain ⟨b2, s2⟩ := (fs_runMarket M _ future).2 b1
+  obtain ⟨b1, _⟩ := (fs_runUpdates M _ past).2 (bi_empty M cfg cl ss)
+  obtain ⟨b2, s2⟩ := (fs_runUpdates M _ future).2 b1
   have hb2 := s2.1 oid hb
   have he2 := s2.2 oid hb he
   exact ⟨he2, ec_complete b2 oid hb2 he2, hb2⟩
 
-open Flumine.Fin in
-/-- in every reachable state of a market's run every order of the blotter is in one of the statuses of a
-    sent order (never back to "no status", never VIOLATION or EXPIRED) and its `complete` flag is the
-    `_is_complete()` of that status -/
+open Flumine.Fin Flumine.Inv in
+/-- in every reachable state every order of a blotter is in one of the statuses of a sent order (never back to
+    "no status", never VIOLATION or EXPIRED) and its `complete` flag is the `_is_complete()` of that status -/
 theorem blotter_orders_sent_whole_run (cfg : Config) (cl : List Client) (ss : List Strategy) (M : Nat)
-    (us : List (Book × (Nat → List Action))) :
-    ∀ oid ∈ ((runMarket M { cfg := cfg, clients := cl, strategies := ss } us).market! M).blotter,
-      Sent ((runMarket M { cfg := cfg, clients := cl, strategies := ss } us).order! oid) :=
-  ((fs_runMarket M _ us).2 (bi_empty M cfg cl ss)).1.sent
+    (us : List (Nat × Book × (Nat → List Action))) :
+    ∀ oid ∈ ((runUpdates { cfg := cfg, clients := cl, strategies := ss } us).market! M).blotter,
+      Sent ((runUpdates { cfg := cfg, clients := cl, strategies := ss } us).order! oid) :=
+  ((fs_runUpdates M _ us).2 (bi_empty M cfg cl ss)).1.sent
 
 /-! ### non-vacuity: a cancel accepted, a second one rejected, the response applied -/
 
@@ -527,16 +526,18 @@ example : (match demoWorld.orderCancel 0 none with
 
 
 /-- non-vacuity of `complete_is_final_whole_run`: an order placed and fully matched is EXECUTION_COMPLETE after
-    two updates (hypotheses hold); a later cancel request and a second placement of it leave it so -/
+    two updates (hypotheses hold); a later cancel request, a second placement of it and a placement of it through
+    another market's transaction leave it so -/
 def nvBook (pt : Int) : Book := { pt := pt, activeRunners := 2, runners := [{ sel := 1, atb := [⟨3, 10⟩], atl := [⟨4, 10⟩] }, { sel := 2 }] }
 def nvOrder : Order := { id := 0, trade := 0, strategy := 0, market := 1, sel := 1, sim := { side := .back, kind := .limit, price := 2, size := 4 } }
-def nvPast : List (Book × (Nat → List Action)) :=
-  [(nvBook 1000, fun _ => [.create nvOrder (some { id := 0, strategy := 0, market := 1, sel := 1 }), .place (.byId 0) none false]), (nvBook 2000, fun _ => [])]
-def nvFuture : List (Book × (Nat → List Action)) :=
-  [(nvBook 3000, fun _ => [.cancel (.byId 0) none false, .place (.byId 0) none false]), (nvBook 4000, fun _ => [])]
-def nvWorld : World := Fin.runMarket 1 { clients := [{ id := 0 }], strategies := [{ id := 0, streams := [0] }] } nvPast
+def nvPast : List (Nat × Book × (Nat → List Action)) :=
+  [(1, nvBook 1000, fun _ => [.create nvOrder (some { id := 0, strategy := 0, market := 1, sel := 1 }), .place (.byId 0) none false]), (1, nvBook 2000, fun _ => [])]
+def nvFuture : List (Nat × Book × (Nat → List Action)) :=
+  [(1, nvBook 3000, fun _ => [.cancel (.byId 0) none false, .place (.byId 0) none false]),
+   (2, nvBook 3500, fun _ => [.place (.byId 0) none false]), (1, nvBook 4000, fun _ => [])]
+def nvWorld : World := Inv.runUpdates { clients := [{ id := 0 }], strategies := [{ id := 0, streams := [0] }] } nvPast
 example : 0 ∈ (nvWorld.market! 1).blotter ∧ (nvWorld.order! 0).status = some .executionComplete ∧
     (nvWorld.order! 0).log = [.pending, .executable, .executionComplete] := by decide +kernel
-example : ((Fin.runMarket 1 nvWorld nvFuture).order! 0).status = some .executionComplete := by decide +kernel
+example : ((Inv.runUpdates nvWorld nvFuture).order! 0).status = some .executionComplete := by decide +kernel
 
 end Flumine.C03
